@@ -58,7 +58,7 @@ m = json.load(open("MANIFEST.json"))
 m["checks"] = checks
 m["not_applicable"] = []
 m["engines"] = [
-    dict(name="vh", path="/verif/harness", serves_properties=sorted(PLANS), kind_free_text="Go harness (one binary, sub-commands seq, seqmap, linzmap, linzcache, atomic, keys, sizeq, traverse, term, racestress, janitor, stall, pairstall) built per check against a shimmed scratch copy of /repo"),
+    dict(name="vh", path="/verif/harness", serves_properties=sorted(PLANS), kind_free_text="Go harness (one binary, sub-commands seq, seqmap, linzmap, linzcache, atomic, keys, sizeq, traverse, term, racestress, janitor, stall, pairstall, oppair) built per check against a shimmed scratch copy of /repo"),
     dict(name="vprep", path="/verif/tools/vprep", serves_properties=sorted(PLANS), kind_free_text="selector rewriter that redirects sync/atomic, sync, time and runtime.Gosched to the shim"),
     dict(name="vshim", path="/verif/inject/vshim", serves_properties=sorted(PLANS), kind_free_text="interception layer: perturbation, step accounting, park points, polling locks, virtual clock, fake tickers, lock ledger"),
 ]
